@@ -325,8 +325,11 @@ class PolyAVerifier:
             return matching_events, external_polya_pos, internal_polya_pos
 
         isoform_terminal_exon_length = intervals_total_length(isoform_exons[-terminal_exon_count:])
-        dist_to_external_polya = abs(isoform_exons[-terminal_exon_count - 1][1] - external_polya_pos)
-        dist_to_internal_polya = abs(isoform_exons[-terminal_exon_count - 1][1] - internal_polya_pos)
+        # -1 means "not found", as in check_if_close
+        dist_to_external_polya = abs(isoform_exons[-terminal_exon_count - 1][1] - external_polya_pos) \
+            if external_polya_pos != -1 else math.inf
+        dist_to_internal_polya = abs(isoform_exons[-terminal_exon_count - 1][1] - internal_polya_pos) \
+            if internal_polya_pos != -1 else math.inf
         dist_to_polya = min(dist_to_external_polya, dist_to_internal_polya)
 
         if (isoform_terminal_exon_length <= self.params.max_fake_terminal_exon_len and
@@ -355,8 +358,11 @@ class PolyAVerifier:
             return matching_events, external_polyt_pos, internal_polyt_pos
 
         isoform_terminal_exon_length = intervals_total_length(isoform_exons[:terminal_exon_count])
-        dist_to_external_polyt = abs(isoform_exons[terminal_exon_count][0] - external_polyt_pos)
-        dist_to_internal_polyt = abs(isoform_exons[terminal_exon_count][0] - internal_polyt_pos)
+        # -1 means "not found", as in check_if_close
+        dist_to_external_polyt = abs(isoform_exons[terminal_exon_count][0] - external_polyt_pos) \
+            if external_polyt_pos != -1 else math.inf
+        dist_to_internal_polyt = abs(isoform_exons[terminal_exon_count][0] - internal_polyt_pos) \
+            if internal_polyt_pos != -1 else math.inf
         dist_to_polyt = min(dist_to_external_polyt, dist_to_internal_polyt)
         # if it looks like we did not align last isoform exons
         if (isoform_terminal_exon_length <= self.params.max_fake_terminal_exon_len and
